@@ -364,7 +364,7 @@ PROP_FOCUS = {
     "C03": ("rank", "idxs_seq", "nnodes", "isvalid", "n_upstream", "idxs_pit"),
     "C04": ("upstream_area", "accuflux", "area"), "C05": ("basins", "basin_outlets", "basin_bounds", "interbasin_mask"),
     "C08": ("stream_order", "main_upstream", "idxs_us_main", "upstream_area"),
-    "C09": ("upstream_area", "idxs_us_main"), "C10": ("upstream_area", "idxs_us_main", "distnc", "hand_floodplains"),
+    "C09": ("upstream_area", "idxs_us_main"), "C10": ("upstream_area", "idxs_us_main", "distnc", "hand_floodplains", "subgrid_riv", "ucat"),
     "C11": ("path", "snap", "idxs_us_main", "distnc"),
     "C14": ("moving_average", "moving_median", "fillnodata", "stream_distance", "hand_floodplains", "smooth_rivlen",
             "downstream", "upstream_sum", "main_upstream", "upstream_area", "river_depth", "classify_estuaries"),
@@ -471,7 +471,9 @@ def _with_history(build, ds, dtype, raster, kw):
     try:
         flw = build(ds_to_np(ds0, dtype), kw0)
         _warmup(flw, rng, raster, len(topo_of(ds0)) == len(valid))
-        flw.add_pits(idxs=np.array([p]))
+        # the same cell may be listed twice (two gauges snapping to one stream cell) or together with an existing pit
+        extra = rng.random()
+        flw.add_pits(idxs=np.array([p, p] if extra < 0.3 else ([p, rng.choice(pits)] if extra < 0.5 else [p])))
         if canon_idx(flw.idxs_ds, n) != list(ds):
             raise RuntimeError("harness: add_pits did not produce the intended network")
         HISTORY_STATS["via_add_pits"] += 1
@@ -634,3 +636,164 @@ def strahler_of(ds):
             elif o == mx[d]:
                 cnt[d] += 1
     return order
+
+
+# ----------------------------------------------------------------------------------------
+# auxiliary queries validated at the source
+# ----------------------------------------------------------------------------------------
+# Several oracles take a quantity the IMPLEMENTATION computed as an input (the Strahler order that defines a stream
+# mask, the main-upstream cells a window walks along, the upstream cell count that picks outlets). If such a quantity is
+# stale or has been corrupted in place, implementation and oracle agree with each other and the defect is invisible. The
+# default-argument forms of these queries are therefore validated against the harness' own computation from
+# `flw.idxs_ds` whenever anybody - the harness or the library itself - asks for them (loop-free networks up to
+# AUX_MAX_CELLS cells). Failures are collected here and turned into `spec` failures by check.py.
+AUX_FAILURES = []
+AUX_STATS = {"validated": 0}
+AUX_MAX_CELLS = 2000
+
+
+def _aux_net(flw):
+    n = int(flw.size)
+    if n > AUX_MAX_CELLS:
+        return None
+    ds = canon_idx(flw.idxs_ds, n)
+    valid = [i for i in range(n) if ds[i] != n]
+    seq = topo_of(ds)
+    if len(seq) != len(valid):
+        return None          # loops: the documented behaviour of these queries is checked by C03 only
+    return n, ds, valid, seq
+
+
+def _aux_fail(flw, ds, what, got, want):
+    if len(AUX_FAILURES) < 50:
+        shp = getattr(flw, "shape", None)
+        AUX_FAILURES.append({"desc": {"op": "auxiliary query (validated at the source)", "ds": ds,
+                                      "shape": list(shp) if hasattr(shp, "__len__") else [len(ds)],
+                                      "cached_keys": sorted(getattr(flw, "_cached", {}).keys())},
+                             "kind": "spec", "what": what, "impl": got, "expected": want})
+
+
+def _own_uparea(flw, n, ds, seq, raster):
+    loc = [1.0] * n if raster else [float(x) for x in np.asarray(flw.area).ravel().tolist()]
+    acc = [0.0] * n
+    for i in seq:
+        acc[i] = loc[i]
+    for i in reversed(seq):
+        if ds[i] != i:
+            acc[ds[i]] += acc[i]
+    return acc
+
+
+def install_aux_validation():
+    if os.environ.get("PF_NO_AUX") == "1":
+        return
+    import functools
+    from pyflwdir.flwdir import Flwdir
+    from pyflwdir.pyflwdir import FlwdirRaster
+    if getattr(Flwdir, "_pf_aux", False):
+        return
+    Flwdir._pf_aux = True
+    busy = [0]
+
+    def guarded(check):
+        def deco(fn):
+            @functools.wraps(fn)
+            def wrapped(self, *a, **k):
+                out = fn(self, *a, **k)
+                if busy[0] == 0:
+                    busy[0] += 1
+                    try:
+                        check(self, out, a, k)
+                    except Exception:  # noqa: BLE001  (validation itself never breaks a run)
+                        pass
+                    finally:
+                        busy[0] -= 1
+                return out
+            return wrapped
+        return deco
+
+    def chk_strord(self, out, a, k):
+        typ = (a[0] if a else k.get("type", "strahler"))
+        if str(typ).lower() != "strahler" or (len(a) > 1 and a[1] is not None) or k.get("mask") is not None:
+            return
+        net = _aux_net(self)
+        if net is None:
+            return
+        n, ds, valid, seq = net
+        want = strahler_of(ds)
+        got = [int(x) for x in np.asarray(out).ravel().tolist()]
+        AUX_STATS["validated"] += 1
+        if max(want, default=0) < 256 and got != want:
+            _aux_fail(self, ds, "stream_order() [default: Strahler, no mask] differs from the Strahler order of the object's current network", got, want)
+
+    def chk_uparea(self, out, a, k):
+        raster = isinstance(self, FlwdirRaster)
+        unit = (a[0] if a else k.get("unit", "cell")) if raster else "cell"
+        if str(unit).lower() != "cell":
+            return
+        net = _aux_net(self)
+        if net is None:
+            return
+        n, ds, valid, seq = net
+        acc = _own_uparea(self, n, ds, seq, raster)
+        got = [float(x) for x in np.asarray(out).ravel().tolist()]
+        AUX_STATS["validated"] += 1
+        bad = [i for i in valid if abs(got[i] - acc[i]) > 1e-6 * max(1.0, abs(acc[i]))]
+        if bad:
+            _aux_fail(self, ds, f"upstream_area() [default unit] differs from the upstream sum on the object's current network at cells {bad[:5]}", got, acc)
+
+    def chk_usmain(self, out):
+        net = _aux_net(self)
+        if net is None:
+            return
+        n, ds, valid, seq = net
+        raster = isinstance(self, FlwdirRaster)
+        acc = _own_uparea(self, n, ds, seq, raster)
+        best, want = [0.0] * n, [n] * n
+        for i in range(n):
+            d = ds[i]
+            if d == n or d == i:
+                continue
+            if acc[i] > best[d]:
+                best[d], want[d] = acc[i], i
+        got = canon_idx(out, n)
+        AUX_STATS["validated"] += 1
+        if got != want:
+            _aux_fail(self, ds, "idxs_us_main differs from 'inflowing cell with the largest upstream area (first one on ties)' on the object's current network", got, want)
+
+    def chk_rank(self, out):
+        net = _aux_net(self)
+        if net is None:
+            return
+        n, ds, valid, seq = net
+        want = [-9999] * n
+        for i in seq:
+            want[i] = 0 if ds[i] == i else want[ds[i]] + 1
+        got = [int(x) for x in np.asarray(out).ravel().tolist()]
+        AUX_STATS["validated"] += 1
+        if got != want:
+            _aux_fail(self, ds, "rank differs from the number of steps to the pit on the object's current network", got, want)
+
+    for cls in (Flwdir, FlwdirRaster):
+        d = vars(cls)
+        if "stream_order" in d:
+            setattr(cls, "stream_order", guarded(chk_strord)(d["stream_order"]))
+        if "upstream_area" in d:
+            setattr(cls, "upstream_area", guarded(chk_uparea)(d["upstream_area"]))
+    for name, chk in (("idxs_us_main", chk_usmain), ("rank", chk_rank)):
+        prop = vars(Flwdir).get(name)
+        if isinstance(prop, property):
+            def mk(prop, chk):
+                def getter(self):
+                    out = prop.fget(self)
+                    if busy[0] == 0:
+                        busy[0] += 1
+                        try:
+                            chk(self, out)
+                        except Exception:  # noqa: BLE001
+                            pass
+                        finally:
+                            busy[0] -= 1
+                    return out
+                return property(getter, prop.fset, prop.fdel, prop.__doc__)
+            setattr(Flwdir, name, mk(prop, chk))
